@@ -11,7 +11,8 @@
 (*               boundary faces with their types for every boundary mode,  *)
 (*               the per-cell tensor / Lame / coupling values of every     *)
 (*               catalogue entry (units of 1/2);                           *)
-(*   t = "cfg"   every (scheme, catalogue entry, boundary mode, variant);  *)
+(*   t = "phys"  every (scheme, catalogue entry, boundary mode) and        *)
+(*   t = "var"   every variant - a configuration is a pair (phys, var);    *)
 (*               variants: the other local inverter; a split (wanted       *)
 (*               count, requested by num_subproblems or by max_memory,     *)
 (*               inverter); a partial discretisation (mode cells / faces / *)
@@ -24,11 +25,13 @@
 (*               subsets and face subsets up to MaxCells / MaxFaces        *)
 (*               elements, node sets = the vertices of those cell subsets  *)
 (*               and arbitrary node subsets up to MaxNodes elements, with  *)
-(*               the sizes of the footprint and of its cell rows;          *)
+(*               the sizes of the footprint and of its cell rows (they are *)
+(*               generated from NB "bucket" states per (grid, mode) so     *)
+(*               that all TLC workers take part);                          *)
 (*   t = "part"  (grids with at most LawCells cells) every partition       *)
 (*               vector into at most MaxParts parts, for LawCover only.    *)
-(* The harness executes a (seeded) selection of cfg x req on the real code *)
-(* and hands the matrices to J_SplitInvariance.                            *)
+(* The harness executes a (seeded) selection of phys x var x req on the    *)
+(* real code and hands the matrices to J_SplitInvariance.                  *)
 (* Laws (invariant Laws, must hold: a failure is a design error):          *)
 (* WellFormed, LawCatalogue, LawMem, LawFixedPoint, the boundary           *)
 (* assignment only types boundary faces; LawFootprint on every request;    *)
@@ -39,7 +42,8 @@ EXTENDS SplitInvariance, Json, TLC
 CONSTANTS Grids,        \* sequence of incidence records
           Inverters,    \* local inverters offered for the split variants
           Hows,         \* subset of {"fresh", "flag", "method"}
-          MaxCells, MaxFaces, MaxNodes,
+          MaxCells, MaxFaces, MaxNodes,   \* largest enumerated request sets (2D grids)
+          MaxNodes3,                      \* largest arbitrary node subset on 3D grids
           LawCells, MaxParts,
           WithCombo     \* BOOLEAN: enumerate partial + split combinations
 
@@ -56,14 +60,15 @@ Variants(G) ==
     \cup {V("partial", "python", 0, "", ph[1], ph[2]) : ph \in {q \in Modes \X Hows : q[2] = "method" => q[1] # "nodes"}}
     \cup (IF WithCombo THEN {V("combo", "python", k, "num", m, "fresh") : m \in Modes, k \in {2, G.nc}} ELSE {})
 
-Cfgs(g) == UNION {{[t |-> "cfg", g |-> g, scheme |-> s, par |-> p, bc |-> b, var |-> v] :
-                     p \in 1..NPar, b \in BcModesOf(s), v \in Variants(GR(g))} : s \in Schemes}
+\* the configurations of grid g are the product Phys(g) x Vars(g); TLC emits the two factors
+Phys(g) == UNION {{[t |-> "phys", g |-> g, scheme |-> s, par |-> p, bc |-> b] : p \in 1..NPar, b \in BcModesOf(s)} : s \in Schemes}
+Vars(g) == {[t |-> "var", g |-> g, var |-> v] : v \in Variants(GR(g))}
 
 UpTo(k, S) == UNION {kSubset(j, S) : j \in 1..k}
 ReqSets(G, mode) ==
   CASE mode = "cells" -> UpTo(MaxCells, CellIx(G))
     [] mode = "faces" -> UpTo(MaxFaces, FaceIx(G))
-    [] mode = "nodes" -> {NodesOfCells(G, S) : S \in UpTo(MaxCells, CellIx(G))} \cup UpTo(MaxNodes, NodeIx(G))
+    [] mode = "nodes" -> {NodesOfCells(G, S) : S \in UpTo(MaxCells, CellIx(G))} \cup UpTo(IF G.dim = 3 THEN MaxNodes3 ELSE MaxNodes, NodeIx(G))
 \* requests are generated from NB bucket states per (grid, mode) so that all workers take part
 NB == 8
 BucketOf(X) == (SumSet(X) + Cardinality(X)) % NB
@@ -79,7 +84,7 @@ Parts(g) == IF GR(g).nc > LawCells THEN {}
             ELSE {[t |-> "part", g |-> g, p |-> p] : p \in [1..GR(g).nc -> 0..(MaxParts - 1)]}
 
 Init == st \in {[t |-> "grid", g |-> g] : g \in 1..Len(Grids)}
-Next == \/ st.t = "grid" /\ st' \in Cfgs(st.g) \cup Buckets(st.g) \cup Parts(st.g)
+Next == \/ st.t = "grid" /\ st' \in Phys(st.g) \cup Vars(st.g) \cup Buckets(st.g) \cup Parts(st.g)
         \/ st.t = "bucket" /\ st' \in Reqs(st.g, st.mode, st.b)
 Spec == Init /\ [][Next]_st
 
@@ -96,7 +101,9 @@ GridRecord(g) ==
       kval |-> [cat \in 1..NPar |-> [c \in 1..G.nc |-> KVal(cat, c - 1)]],
       lval |-> [cat \in 1..NPar |-> [c \in 1..G.nc |-> LVal(cat, c - 1)]],
       aval |-> [cat \in 1..NPar |-> [c \in 1..G.nc |-> AVal(cat, c - 1)]],
-      ascalar |-> [cat \in 1..NPar |-> AScalar(cat)]]
+      ascalar |-> [cat \in 1..NPar |-> AScalar(cat)],
+      old |-> [scale |-> OldScale, add |-> OldAdd, flip |-> [b \in {"dir", "neu", "rob", "rol"} |-> FlipBc(b)]],
+      keys |-> [s \in Schemes |-> [i \in 1..Len(MatTable(s)) |-> MatTable(s)[i].key]], coupling |-> CouplingKeys]
 
 ReqRecord(r) ==
   LET G == GR(r.g)
@@ -105,7 +112,7 @@ ReqRecord(r) ==
       foot |-> Cardinality(F), crows |-> Cardinality(CellRows(G, F)), nf |-> G.nf]
 
 Emit == CASE st.t = "grid" -> PrintT(ToJson(GridRecord(st.g)))
-          [] st.t = "cfg" -> PrintT(ToJson(st))
+          [] st.t \in {"phys", "var"} -> PrintT(ToJson(st))
           [] st.t = "req" -> PrintT(ToJson(ReqRecord(st)))
           [] OTHER -> TRUE
 
